@@ -875,9 +875,25 @@ def _raise_ok(index, fi, r, pm):
                         classes.append(c)
             if classes and all(index.is_subclass(c, DPE) for c in classes):
                 return True, "%s() -> %s" % (target.attr, classes[0].name)
-            # error_type variable defaulting to a DataParseError subclass
-            if any(isinstance(n, ast.Name) and n.id == "error_type" for n in ast.walk(m.node)):
-                return True, "%s() -> DataParseError family" % target.attr
+            # the factory instantiates a local / parameter that only ever holds DataParseError subclasses
+            rets = [n.value for n in walk_no_nested(m.node) if isinstance(n, ast.Return) and n.value is not None]
+            ctor_names = set()
+            for rv in rets:
+                cur = rv
+                if isinstance(cur, ast.Name):
+                    ds = [d.value for d in walk_no_nested(m.node) if isinstance(d, ast.Assign) and norm(d.targets[0]) == cur.id]
+                    cur = ds[-1] if ds else cur
+                if isinstance(cur, ast.Call) and isinstance(cur.func, ast.Name):
+                    ctor_names.add(cur.func.id)
+            for cn in ctor_names:
+                vals = [d.value for d in walk_no_nested(m.node) if isinstance(d, ast.Assign) and norm(d.targets[0]) == cn]
+                if cn in m.all_params or vals:
+                    cls_ok = []
+                    for v in vals:
+                        c = index.resolve_expr(m.module, v)
+                        cls_ok.append(hasattr(c, "methods") and index.is_subclass(c, DPE))
+                    if all(cls_ok):
+                        return True, "%s() -> DataParseError family" % target.attr
             return False, "%s() (unrecognised factory)" % target.attr
     c = index.resolve_expr(fi.module, target)
     name = norm(target)
